@@ -16,11 +16,12 @@ Fixpoint expected_audio (sc : list cmd) : list (list chunk) :=
   match sc with
   | [] => []
   | CPlay n xs :: r => chunkify n xs :: expected_audio r
+  | CPlayBad n xs k :: r => firstn k (chunkify n xs) :: expected_audio r   (* what the generator produces *)
   | CClose :: _ => []
   | _ :: r => expected_audio r
   end.
 Fixpoint plays (sc : list cmd) : nat :=
-  match sc with [] => 0 | CPlay _ _ :: r => S (plays r) | _ :: r => plays r end.
+  match sc with [] => 0 | CPlay _ _ :: r | CPlayBad _ _ _ :: r => S (plays r) | _ :: r => plays r end.
 Fixpoint expected_raises (sc : list cmd) : nat :=
   match sc with
   | [] => 0
@@ -29,6 +30,17 @@ Fixpoint expected_raises (sc : list cmd) : nat :=
   end.
 Fixpoint has_close (sc : list cmd) : bool :=
   match sc with [] => false | CClose :: _ => true | _ :: r => has_close r end.
+
+(* what the property text demands for every play command (the whole iterable, padded) *)
+Fixpoint demanded_audio (sc : list cmd) : list (list chunk) :=
+  match sc with
+  | [] => []
+  | CPlay n xs :: r | CPlayBad n xs _ :: r => chunkify n xs :: demanded_audio r
+  | CClose :: _ => []
+  | _ :: r => demanded_audio r
+  end.
+(* no play command of the script has a chunk generator that raises *)
+Definition script_ok (sc : list cmd) : bool := forallb cmd_ok sc.
 
 (* ---- boolean helpers on traces (chronological order) *)
 Fixpoint zlist_eqb (a b : list Z) : bool :=
@@ -150,7 +162,7 @@ Definition after_close_at (s : state) : Prop :=
   (forall i p, get_player s i = Some p -> popen p = false /\ ppc_ p = PDone)   (* streams closed, nobody alive *)
   /\ sterminated s = 1
   /\ sthreads s = []
-  /\ (forall a, smpc s = MPlayAcq a ->                                          (* a later play raises *)
+  /\ (forall a cr, smpc s = MPlayAcq a cr ->                                         (* a later play raises *)
        forall s', step s 0 = Some s' -> smpc s' = MPlayRaiseRel /\ splayers s' = splayers s).
 
 Definition stuck (s : state) : Prop := forall tid, step s tid = None.
@@ -169,6 +181,6 @@ Definition closing (s : state) : bool :=
   sfinished s || match smpc s with MCloseAcqH => true | _ => false end.
 Definition pending_audio (s : state) : list (list chunk) :=
   if closing s then []
-  else match smpc s with MPlayAcq a => [a] | _ => [] end ++ expected_audio (sscript s).
+  else match smpc s with MPlayAcq a _ => [a] | _ => [] end ++ expected_audio (sscript s).
 Definition audio_link (sc0 : list cmd) (s : state) : Prop :=
   expected_audio sc0 = map paudio (splayers s) ++ pending_audio s.
